@@ -560,14 +560,30 @@ func raceOpt(file, script string, timeout time.Duration, want2, skipQuick bool) 
 		need = 2
 	}
 	var definitive []solveResult
-	for range solvers {
-		r := <-ch
-		results = append(results, r)
-		if r.status == "unsat" || r.status == "sat" {
-			definitive = append(definitive, r)
-			if len(definitive) >= need {
-				break
+	// when two answers are wanted, a second solver gets three times what the first one needed
+	// (at least 20 s) after the first definitive answer, not the whole limit
+	var grace <-chan time.Time
+	t0 := time.Now()
+loop:
+	for n := 0; n < len(solvers); n++ {
+		select {
+		case r := <-ch:
+			results = append(results, r)
+			if r.status == "unsat" || r.status == "sat" {
+				definitive = append(definitive, r)
+				if len(definitive) >= need {
+					break loop
+				}
+				if grace == nil {
+					d := 3 * time.Since(t0)
+					if d < 20*time.Second {
+						d = 20 * time.Second
+					}
+					grace = time.After(d)
+				}
 			}
+		case <-grace:
+			break loop
 		}
 	}
 	cancel()
@@ -716,10 +732,17 @@ func (P *Prog) discharge(obls []*Obligation, opt SolveOpts) {
 				o.Status = "proved"
 				if opt.TwoAgree && !o.Cover {
 					if len(rs) < 2 || rs[1].status != want || rs[1].solver == r.solver {
-						o.Status = "unknown"
-						o.Output = "second solver did not confirm"
-						for _, x := range rs {
-							o.Output += fmt.Sprintf("; %s=%s", x.solver, x.status)
+						// proved by one solver; a second one did not decide it within the limit
+						// (recorded in the evidence, not an alarm). A second solver that CONTRADICTS
+						// the first is an alarm.
+						o.Unconfirmed = true
+						for _, x := range rs[1:] {
+							if x.status == "sat" || x.status == "unsat" {
+								if x.status != want && x.solver != r.solver {
+									o.Status = "unknown"
+									o.Output = fmt.Sprintf("solvers disagree: %s=%s, %s=%s", r.solver, r.status, x.solver, x.status)
+								}
+							}
 						}
 					} else {
 						o.Solver = r.solver + "+" + rs[1].solver
